@@ -48,13 +48,17 @@ type Engine struct {
 	maxValidate     int
 	maxViolations   int
 
-	smu         sync.Mutex
-	solverTotal SolverStats
-	fastDecided int
-	wmu         sync.Mutex
-	everWritten map[string]bool
-	writtenGrew bool
-	noFastPath  bool
+	smu           sync.Mutex
+	solverTotal   SolverStats
+	fastDecided   int
+	wmu           sync.Mutex
+	everWritten   map[string]bool
+	writtenGrew   bool
+	noFastPath    bool
+	crossCheck    bool
+	crossQueries  int
+	crossCVC5     int
+	disagreements []string
 
 	funcsExecuted sync.Map // *ssa.Function -> true (repo functions reached)
 	rtErrType     types.Type
